@@ -322,7 +322,7 @@ def find_children_for_parent(var_collector: Collector, parent_node: ParentNode, 
         return process_list_breadth_first(var_collector, parent_node, value)
     elif isinstance(value, Exception):
         return process_list_breadth_first(var_collector, parent_node, value.args)
-    elif hasattr(value, '__class__'):
+    elif hasattr(value, '__class__') and hasattr(value, '__dict__'):
         return process_dict_breadth_first(parent_node, variable_type.__name__, value.__dict__, correct_names)
     elif hasattr(value, '__dict__'):
         return process_dict_breadth_first(parent_node, variable_type.__name__, value.__dict__)
